@@ -309,23 +309,32 @@ Fixpoint walk (fuel : nat) (r : registry hook) (st : list frame) : wres :=
   walk_with (match fuel with 0 => fun _ => WOutOfFuel | S n => walk n r end) r st.
 
 (* ------------------------------------------------------------------ correspondence cases *)
-Definition gerr_eqb (a b : gerr) : bool :=
-  match a, b with
-  | ETypeError, ETypeError => true
-  | EValueError i, EValueError j => i =? j
-  | EOutOfFuel, EOutOfFuel => true
+(* observed errors: the exception class, and the failing position when the message names it *)
+Inductive oerr := OTypeError | OValueError (idx : option nat).
+Inductive orres := OROk | ORErr (e : oerr).
+Definition gerr_matches (e : gerr) (o : oerr) : bool :=
+  match e, o with
+  | ETypeError, OTypeError => true
+  | EValueError _, OValueError None => true
+  | EValueError i, OValueError (Some j) => i =? j
   | _, _ => false
   end.
-Definition rres_eqb (a b : rres) : bool :=
-  match a, b with ROk, ROk => true | RErr x, RErr y => gerr_eqb x y | _, _ => false end.
+Definition rres_matches (a : rres) (b : orres) : bool :=
+  match a, b with ROk, OROk => true | RErr x, ORErr y => gerr_matches x y | _, _ => false end.
+Fixpoint list_matches {A B} (m : A -> B -> bool) (a : list A) (b : list B) : bool :=
+  match a, b with
+  | [], [] => true
+  | x :: a', y :: b' => m x y && list_matches m a' b'
+  | _, _ => false
+  end.
 
 (* kind "main": get_code(tower, *names) *)
-Inductive gobs := PCode (id : nat) | PErr (e : gerr) | POther.
+Inductive gobs := PCode (id : nat) | PErr (e : oerr) | POther.
 Definition gcase := (tower * list string * bool * gobs)%type.
 Definition gobs_ok (r : gres) (o : gobs) : bool :=
   match r, o with
   | GOk c, PCode i => code_id c =? i
-  | GErr e, PErr e' => gerr_eqb e e'
+  | GErr e, PErr e' => gerr_matches e e'
   | _, _ => false
   end.
 Definition gcase_ok (k : gcase) : bool :=
@@ -357,11 +366,11 @@ Definition icount_nontrivial (cases : list icase) : nat :=
   count_true (map (fun k : icase => 1 <? length (fst k)) cases).
 
 (* kind "registry": registrations on a code_dispatch function, then dispatch queries *)
-Definition rcase := (list (tower * list string * nat) * list nat * list rres * list (option nat))%type.
+Definition rcase := (list (tower * list string * nat) * list nat * list orres * list (option nat))%type.
 Definition rcase_ok (k : rcase) : bool :=
   let '(regs, queries, ores, odisp) := k in
   let '(r, res) := register_all [] regs in
-  list_eqb rres_eqb res ores &&
+  list_matches rres_matches res ores &&
   list_eqb (option_eqb Nat.eqb) (map (dispatch r) queries) odisp.
 Definition rmismatches (cases : list rcase) : list nat := false_indices 0 (map rcase_ok cases).
 Definition rcount_nontrivial (cases : list rcase) : nat :=
@@ -392,12 +401,12 @@ Definition wres_eqb (a b : wres) : bool :=
   | WOk f1 c1, WOk f2 c2 => list_eqb oframe_eqb f1 f2 && list_eqb call_eqb c1 c2
   | _, _ => false
   end.
-Definition ccase := (list cop * list frame * list rres * wres)%type.
+Definition ccase := (list cop * list frame * list orres * wres)%type.
 Definition walk_depth : nat := 8.
 Definition ccase_ok (k : ccase) : bool :=
   let '(ops, st, ores, ow) := k in
   let '(r, res) := apply_cops [] ops in
-  list_eqb rres_eqb res ores && wres_eqb (walk walk_depth r st) ow.
+  list_matches rres_matches res ores && wres_eqb (walk walk_depth r st) ow.
 Definition cmismatches (cases : list ccase) : list nat := false_indices 0 (map ccase_ok cases).
 Definition ccount_nontrivial (cases : list ccase) : nat :=
   count_true (map (fun k : ccase => let '(ops, _, _, _) := k in negb (length ops =? 0)) cases).
